@@ -16,7 +16,7 @@ RULE = ('(1) result monitor: f64 and &f64 parallel iterators are collected into 
         'Moments4 and a define_moments! order-6 type inside explicit ThreadPoolBuilder pools of 1,2,3,4,8,16 threads, with '
         'with_min_len / with_max_len in {unset,1,2,3,7,64,n}, from a slice or from iter().par_bridge() (an unindexed source that hands items out in arbitrary order), optionally through a filter stage that drops a pseudo-random third of the items (so that fold leaves can be empty), with a seeded map stage that yields / spins on a pseudo-random subset '
         'of items (delay injection between the items of a fold), each configuration repeated; len must be exact, min / max exact, '
-        'every other statistic inside the section-2 envelope of the exact statistics. (2) schedule monitor: Probe<T> wraps the real '
+        'every other statistic inside the section-2 envelope of the exact statistics; besides random data, constant, period-2, period-4 and mirror-symmetric inputs (partial results with bit-identical means meet in the reduction). (2) schedule monitor: Probe<T> wraps the real '
         'estimator and is given the crate\'s own exported impl_from_par_iterator!; it checks online that every fold leaf absorbs a '
         'contiguous ascending index run, every merge joins adjacent runs in order (or an empty side), every item is absorbed exactly '
         'once, and records the split / merge tree; the monitor re-executes the recorded tree sequentially with the real type and '
@@ -230,6 +230,38 @@ def shard(desc):
                 seq_mark = c.op('O', 20) if not use_probe else None
                 cases.append(c)
                 plan.append((c, t, typ, kept, marks, seq_mark, (id(xs), fseed)))
+    for n in desc.get('tie_lengths', []):
+        # constant, periodic and symmetric inputs: partial results whose means are bit-identical meet in the reduction
+        # (generic random data never produces that); schedule probe off (it needs distinct values)
+        for kind in ('constant', 'period2', 'period4', 'symmetric'):
+            a, b = rng.choice([1.5, -2.25, 1e6 + 0.125, 3.0e-5]), rng.choice([0.5, 7.0, -1.0])
+            if kind == 'constant':
+                xs = [a] * n
+            elif kind == 'period2':
+                xs = [a if i % 2 == 0 else a + b for i in range(n)]
+            elif kind == 'period4':
+                xs = [a + b * (i % 4) for i in range(n)]
+            else:
+                half = [a + b * rng.randint(-8, 8) for _ in range(n // 2)]
+                xs = half + half[::-1]
+            for typ in rng.sample(TYPES, min(4, len(TYPES))):
+                th = rng.choice([2, 3, 4, 8])
+                lo, hi = rng.choice([(0, 0), (1, 1), (2, 2), (4, 4), (0, 8), (8, 0)])
+                mode = rng.choice(['v', 'r'])
+                c = Case('%s-%d' % (desc['name'], k), typ, meta={'threads': th, 'min_len': lo, 'max_len': hi, 'mode': mode,
+                                                               'delay_seed': 0, 'filter_seed': 0, 'n': len(xs), 'ties': kind})
+                k += 1
+                marks = []
+                for r_ in range(max(2, desc['repeats'])):
+                    c.op('P', r_, th, lo, hi, mode, 0, 0, xs)
+                    marks.append(c.op('O', r_))
+                c.op('N', 20)
+                if xs:
+                    c.op('A', 20, xs)
+                seq_mark = c.op('O', 20)
+                cases.append(c)
+                plan.append((c, typ, typ, xs, marks, seq_mark, (id(xs), 0)))
+                res.count('tie_collects', len(marks))
     for n, typ, use_probe in desc.get('ramps', []):
         # a long ascending ramp: (a) unfiltered - the last reduction joins two halves of > 2^16 items with very different
         # means; (b) with a threshold filter that drops all but one item of the first half - a tiny left partial result
@@ -495,6 +527,8 @@ def run(tier, seed):
                 d = {'name': '%s%d' % (variant[0], s), 'variant': variant, 'binary': binary, 'lengths': lengths,
                      'seed': seed * 1000003 + s * 7919 + sum(map(ord, variant))}
                 d.update(cfg)
+                if s < 4:
+                    d['tie_lengths'] = [[2, 8, 64], [3, 16, 1024], [4, 100, 4096], [6, 32, 512]][s]
                 descs.append(d)
             for i, (tname, pr) in enumerate([('Kurtosis', False), ('Mean', True), ('M6', False), ('Variance', True)][:(4 if tier == 'thorough' else 2)]):
                 descs.append({'name': 'ramp%s%d' % (variant[0], i), 'variant': variant, 'binary': binary, 'lengths': [], 'data_per_len': 0,
@@ -509,7 +543,7 @@ def run(tier, seed):
             miri_leg(seed, 16, total)
     except common.Inconclusive as e:
         total.inconclusive.append(str(e))
-    need = {'collects_from_par_bridge': 50, 'ramp_collects': 4, 'parallel_collects': 300, 'probe_collects': 100, 'tree_replays': 50, 'collects_with_multiple_leaves': 50,
+    need = {'tie_collects': 200, 'collects_from_par_bridge': 50, 'ramp_collects': 4, 'parallel_collects': 300, 'probe_collects': 100, 'tree_replays': 50, 'collects_with_multiple_leaves': 50,
             'collects_with_filter_stage': 50, 'trees_with_empty_into_empty_merge': 5,
             'collects_with_delay_injection': 50, 'collects_by_ref': 50, 'collects_by_value': 50, 'distinct_merge_trees': 20}
     if tier == 'thorough':
